@@ -148,7 +148,58 @@ def check_one(M, v, Qd, Td, j, m, tol, d_inv, lam, fam, bad, normA, check_first=
             bad("full-run-does-not-reproduce-the-spectrum", {"err": float(np.max(np.abs(np.sort(ritz) - np.sort(lam))))})
 
 
+def run_scale(case, seed):
+    """a batch whose columns live at different scales of the operator: A = blockdiag(2^30 S1, S2) (Hermitian blocks), one generic start vector and
+    one supported on the second block; the batched decomposition of that column must agree with the same vector run alone"""
+    _, n1, n2, cplx, tol = case
+    g = P.rng(seed, "c14scale", n1, n2, cplx)
+    rnd = lambda *s: g.standard_normal(s) + (1j * g.standard_normal(s) if cplx else 0)  # noqa: E731
+    herm = lambda B: (B + B.conj().T) / 2 + 3 * np.eye(B.shape[0])  # noqa: E731
+    S1, S2 = herm(rnd(n1, n1)), herm(rnd(n2, n2))
+    n = n1 + n2
+    M = np.zeros((n, n), dtype=S1.dtype)
+    M[:n1, :n1], M[n1:, n1:] = 2.0**30 * S1, S2
+    v0, v1 = rnd(n), np.concatenate([np.zeros(n1), rnd(n2)])
+    Vb = np.stack([v0, v1], axis=1)
+    A = cola.SelfAdjoint(ops.Dense(M))
+    vio, ntr = [], 0
+
+    def bad(sym, detail, m):
+        key = f"C14|batch-columns-at-different-scales|{sym}|{'c' if cplx else 'r'},tol={tol}"
+        if not any(x["key"] == key for x in vio):
+            vio.append({"key": key, "what": f"batched lanczos, columns at different operator scales: {sym}", "detail": {**detail, "max_iters": m, "n1": n1, "n2": n2}})
+
+    with warnings.catch_warnings():
+        warnings.simplefilter("ignore")
+        from cola.backends import np_fns
+        for m in range(2, n + 2):
+            ntr += 1
+            try:
+                Qb, Tb, _ = lanczos(A, Vb.copy(), max_iters=m, tol=tol)
+                Qb = np.asarray(Qb.to_dense())
+                Tb = np.asarray(np_fns.vmap(Tb.__class__.to_dense)(Tb))
+                Q1, T1, _ = lanczos(A, v1.copy(), max_iters=m, tol=tol)
+                Q1 = np.asarray(Q1.to_dense())
+            except Exception as e:
+                bad(f"exc:{type(e).__name__}", {"msg": str(e)[:200]}, m)
+                continue
+            k = min(m, n2, Qb.shape[2])
+            Qc, Tc = Qb[1][:, :k], Tb[1][:k, :k]
+            if np.max(np.abs(Qc.conj().T @ Qc - np.eye(k))) > 1e-8:
+                bad("Q-not-orthonormal-on-its-own-Krylov-space", {"err": float(np.max(np.abs(Qc.conj().T @ Qc - np.eye(k)))), "column_norms": np.linalg.norm(Qc, axis=0).tolist()}, m)
+            elif np.max(np.abs(Qc.conj().T @ M @ Qc - Tc)) > 1e-8 * np.linalg.norm(S2, 2):
+                bad("T-is-not-Q^H-A-Q-at-the-column-scale", {"err": float(np.max(np.abs(Qc.conj().T @ M @ Qc - Tc)))}, m)
+            kk = min(k, Q1.shape[1])
+            if kk < min(m, n2) and tol <= 1e-7:
+                bad("column-alone-stops-before-its-Krylov-space-is-exhausted", {"columns": int(Q1.shape[1])}, m)
+            if np.max(np.abs(Q1[:, :kk] - Qc[:, :kk])) > 1e-7:
+                bad("batched-column-differs-from-the-same-vector-alone", {"err": float(np.max(np.abs(Q1[:, :kk] - Qc[:, :kk])))}, m)
+    return {"states": n, "transitions": ntr * 3, "outcome": f"scale:{len(vio)}", "violations": vio}
+
+
 def run_case(case, seed):
+    if case[0] == "SCALE":
+        return run_scale(case, seed)
     fam, n, cplx, vkind, tol, entry, ms = case
     vio, ntr = [], 0
     h = hashlib.sha256()
@@ -255,6 +306,10 @@ def cases(tier, seed):
                                 continue
                             out.append([fam, n, cplx, vk, tol, entry, ms])
     _DESC.update({"configurations": len(out), "runs": sum(len(c[-1]) for c in out), "sizes": small + big})
+    for n1, n2 in ((3, 3), (4, 2), (2, 5)):
+        for cplx in (False, True):
+            for tol in (1e-12, 1e-7, 1e-3):
+                out.append(["SCALE", n1, n2, cplx, tol])
     return out
 
 
